@@ -16,8 +16,11 @@ CFGS = [c for c in itertools.product([False, True], repeat=3) if any(c)]   # (wr
 
 
 def sp_for(cfg):
+    """cfg = (wr, wa, wo[, 'two-certs']): with the 4th element the IdP's metadata lists two signing certificates and the
+    one it really signs with comes second (key roll-over)."""
     if cfg not in _sp:
-        _sp[cfg] = world.make_sp(TMP[0], [world.idp_md(), world.idp_md(world.IDP_B, keys=(('idpB', 'signing'),))],
+        keys = (('idpA', 'signing'),) if len(cfg) < 4 else (('idpA2', 'signing'), ('idpA', 'signing'))
+        _sp[cfg] = world.make_sp(TMP[0], [world.idp_md(keys=keys), world.idp_md(world.IDP_B, keys=(('idpB', 'signing'),))],
                                  want_response_signed=cfg[0], want_assertions_signed=cfg[1],
                                  want_assertions_or_response_signed=cfg[2])
     return _sp[cfg]
@@ -61,7 +64,7 @@ def judge(xml, obs, cfg, encrypted=False):
     for a in cands:
         has = bool(children(a, DS, 'Signature'))
         ass_info.append((a, has, oracle.strict_signature(doc, a, ['idpA'])[0] if has else False))
-    wr, wa, wo = cfg
+    wr, wa, wo = cfg[:3]
     if resp_has_sig and not resp_strict:
         return 'response-signature-present-not-strictly-valid'
     if wr and not resp_strict:
@@ -122,20 +125,22 @@ def kids(e, name=None):
     return [c for c in e.childNodes if c.nodeType == 1 and (name is None or c.localName == name)]
 
 
-def grammar(xml, target, only=None):
+def grammar(xml, target, only=None, tids=('fresh', 'same')):
     """Yield (coords, document) for every member of the wrapping grammar around one validly signed element O.
     target: 'Assertion' (O is the assertion of a response), 'Response' or 'Request' (O is the document element).
     only=(tid, oslot) restricts the enumeration to one block."""
     O_SLOTS, S_SLOTS = (O_SLOTS_A, S_SLOTS_A) if target == 'Assertion' else (O_SLOTS_R, S_SLOTS_R)
     if target == 'Request':
         O_SLOTS = O_SLOTS_Q
-    for tid in ('fresh', 'same'):
+    for tid in tids:
         for oslot in O_SLOTS:
             if only is not None and (tid, oslot) != tuple(only):
                 continue
             for okeeps in (False, True):
                 for s1, s2 in itertools.product(S_SLOTS, S_SLOTS):
                     if s1 is None and s2 is not None:
+                        continue
+                    if tid.startswith('near') and s2 is not None:
                         continue
                     for u1, u2 in itertools.product(('#O', '#T'), repeat=2):
                         if s1 is None and (u1, u2) != ('#O', '#O'):
@@ -150,7 +155,9 @@ def grammar(xml, target, only=None):
                         T = O.cloneNode(True)
                         for s in kids(T, 'Signature'):
                             T.removeChild(s)
-                        T.setAttribute('ID', 'evil-id' if tid == 'fresh' else oid)
+                        # near-*: an identifier that differs from the signed one by white space only
+                        T.setAttribute('ID', {'fresh': 'evil-id', 'same': oid, 'near-trailing': oid + ' ', 'near-leading': ' ' + oid,
+                                              'near-newline': oid + '\n'}[tid])
                         for e in T.getElementsByTagNameNS(SAML, 'NameID'):
                             e.firstChild.data = 'mallory'
                         if target == 'Request':
@@ -264,12 +271,13 @@ def grammar(xml, target, only=None):
 
 # ------------------------------------------------- multi-assertion layer
 
-MULTI = ('G', 'F', 'U', 'EF', 'EG')
+MULTI = ('G', 'F', 'U', 'EF', 'EG', 'BF')
 
 
 def multi_doc(seq):
     """Response (unsigned) carrying a sequence of: G genuine signed assertion, F forged unsigned assertion, U assertion
-    encrypted for somebody else, EF forged assertion encrypted for this SP, EG genuine assertion encrypted for this SP."""
+    encrypted for somebody else, EF forged assertion encrypted for this SP, EG genuine assertion encrypted for this SP,
+    BF forged assertion encrypted for this SP as a bare xenc:EncryptedData child of the Response (no EncryptedAssertion)."""
     now = env.BASE
     parts = []
     ids = {}
@@ -292,6 +300,8 @@ def multi_doc(seq):
             root.replaceChild(wrap, a)
             wrap.appendChild(a)
             xmlsec.encrypt_node(d, a, forge.enc_template(), world.pub('spY' if k == 'U' else 'spXenc1'))
+        elif k == 'BF':
+            xmlsec.encrypt_node(d, a, forge.enc_template(), world.pub('spXenc1'))
     return root.toxml()
 
 
@@ -331,7 +341,7 @@ def build_tasks(ctx):
                 x = forge.encrypt_assertions(xml, 'spXenc1')
             except Exception:
                 return
-        k = (xml, enc, prime is not None)
+        k = (xml, enc, prime is not None, coords.get('md'))
         if k in seen:
             return
         seen.add(k)
@@ -357,9 +367,13 @@ def build_tasks(ctx):
         if target == 'Assertion' and kind == 'RA' and not ctx.thorough:
             continue
         cf = [c for c in CFGS] if ctx.thorough else ([c for c in CFGS if c in ((False, True, False), (False, False, True))] if target == 'Assertion' else [c for c in CFGS if c in ((True, False, False), (False, False, True))])
-        for coords, xml in grammar(starts[(kind, 'sha256')], target):
+        near = ('near-trailing', 'near-leading', 'near-newline') if kind in ('A', 'R') else ()
+        for coords, xml in grammar(starts[(kind, 'sha256')], target, tids=('fresh', 'same') + near):
             coords['start'] = kind
             add(coords, xml, False, cf)
+            # key roll-over: two signing certificates in the metadata, the one really used listed second
+            if kind in ('A', 'R') and coords['s2'] is None and not coords['tid'].startswith('near'):
+                add(dict(coords, md='two-certs'), xml, False, [cf[0] + ('two-certs',)])
             # non-initial state: the SP has just accepted the genuine document these shapes are derived from
             if ctx.thorough or (coords['s2'] is None and coords['tid'] == 'fresh'):
                 add(coords, xml, False, cf[:1], prime=starts[(kind, 'sha256')])
@@ -453,7 +467,7 @@ def run(ctx):
             'states': len(tasks), 'transitions': n_eval, 'traces_validated_against_impl': n_eval,
             'samples': samples, 'exhaustive': True, 'accepted': accepted, 'vacuous': vac,
             'layers': layers, 'distinct_outcomes': len(hist), 'outcome_histogram': hist,
-            'rule': 'states = distinct documents reachable from validly signed starts {assertion-signed, response-signed, both}%s by (1) the complete wrapping grammar twin x original-slot x keeps-signature x two signature-copy slots x reference target, (2) every depth-1 tree edit (text/attr/delete/move/copy/wrap/dupsig/setid at every site), (3) depth-2 structural-then-follow-up family, (4) every sequence of <= 3 assertions drawn from {genuine signed, forged unsigned, encrypted for somebody else, forged encrypted for this SP, genuine encrypted for this SP} in an unsigned response; plain and encrypted (assertion-signed); transitions = (state, SP configuration) acceptance runs of the real parse_authn_request_response, each judged by the strict verifier + identity-origin oracle' % (' x all five RSA-SHA algorithms' if ctx.thorough else ''),
+            'rule': 'states = distinct documents reachable from validly signed starts {assertion-signed, response-signed, both}%s by (1) the complete wrapping grammar twin (fresh ID, same ID, and IDs differing from the signed one by white space only) x original-slot x keeps-signature x two signature-copy slots x reference target, (2) every depth-1 tree edit (text/attr/delete/move/copy/wrap/dupsig/setid at every site), (3) depth-2 structural-then-follow-up family, (4) every sequence of <= 3 assertions drawn from {genuine signed, forged unsigned, encrypted for somebody else, forged encrypted for this SP, genuine encrypted for this SP} in an unsigned response; plain and encrypted (assertion-signed); transitions = (state, SP configuration) acceptance runs of the real parse_authn_request_response, each judged by the strict verifier + identity-origin oracle' % (' x all five RSA-SHA algorithms' if ctx.thorough else ''),
         },
         'assumptions': ['xmlsec1 environment model (first Signature in the subtree of --node-id is verified; --id-attr registers IDs by element name); see DESIGN 4',
                         'edit depth bounded at 2 (+ grammar shapes); alphabets as listed'],
@@ -469,7 +483,7 @@ def replay(ctx, w):
     xml = start_doc(kind, w.get('alg', 'sha256'))
     if w['kind'] == 'grammar':
         doc = None
-        for coords, x in grammar(xml, w['target']):
+        for coords, x in grammar(xml, w['target'], tids=(w['tid'],)):
             if all(coords[k] == w[k] for k in ('tid', 'oslot', 'okeeps', 's1', 'u1', 's2', 'u2')):
                 doc = x
                 break
